@@ -349,6 +349,9 @@ class Interp:
             if fr is not None and fr.catches('AttributeError') and name in self.eng.maybe_missing_fields:
                 if self.run.decide(sym.is_undef(val), f'missing-{name}'):
                     self.raise_('AttributeError', node)
+            if name in self.eng.field_hints:
+                # e.g. `_func`: a string or a callable object (never a node): only prunes dispatch
+                return SV(val, hint=frozenset(self.eng.field_hints[name]))
             fh = self.eng.field_types.get(name)
             if fh is not None:
                 # type invariant of the attribute (established by every constructor; listed in the evidence)
